@@ -2130,6 +2130,14 @@ class IMapIterator:
         self._worker_pids.append(pid)
         self._owners[i] = pid
 
+    def _set_terminated(self, signum=None):
+        # terminate_job() on a worker running one of our parts: reported
+        # like a lost worker (ApplyResult and MapResult have this method).
+        try:
+            raise Terminated(-(signum or 0))
+        except Terminated:
+            self._set(None, (False, ExceptionInfo()))
+
     def ready(self):
         return self._ready
 
